@@ -121,7 +121,7 @@ func (c03) Info(t core.Tier) core.Info {
 	}
 }
 
-func (c03) NumCases(t core.Tier) int { return len(c03Matrix) + tierN(t, 25000, 600000) }
+func (c03) NumCases(t core.Tier) int { return len(c03Matrix) + tierN(t, 25000, 2000000) }
 
 func withGlobalOverride(k spec.Kind, f func()) (mark any) {
 	saved := conf.Coercers
